@@ -5,6 +5,7 @@ package req
 import (
 	"bytes"
 	"context"
+	"errors"
 	"fmt"
 	"io"
 	"net/http"
@@ -43,7 +44,7 @@ func c13RandOpts(s *verifh.Session, base int) (*DumpOptions, string) {
 			return nil
 		}
 		ids[i] = base + i
-		return &c13LogWriter{base + i, log, false}
+		return &c13LogWriter{id: base + i, log: log}
 	}
 	o := &DumpOptions{
 		Output: mk(0), RequestOutput: mk(1), ResponseOutput: mk(2), RequestHeaderOutput: mk(3),
@@ -155,6 +156,21 @@ func (w *c13LimitedWriter) Write(p []byte) (int, error) {
 
 func (w *c13LimitedWriter) Close() error { w.closed++; return nil }
 
+// c13FailingSink is the model's `failingSink`: a dump writer that records what it is offered
+// and fails every write after the first k.
+type c13FailingSink struct {
+	k    int
+	seen []string
+}
+
+func (w *c13FailingSink) Write(p []byte) (int, error) {
+	w.seen = append(w.seen, string(p))
+	if len(w.seen) > w.k {
+		return 0, errors.New("dump writer: disk full")
+	}
+	return len(p), nil
+}
+
 // c13BytesReader is the model's `bytesReader`.
 type c13BytesReader struct {
 	rest        []byte
@@ -245,6 +261,50 @@ func TestVerif_C13_wrap(t *testing.T) {
 		s.Case(fmt.Sprintf("c13wrapw %d %s %d", limit, verifh.HexList(writes), depth), ans, ok, "", limit < total && len(writes) > 1,
 			fmt.Sprintf("writer kind=%d depth=%d limit=%d writes=%v", kind, depth, limit, c13Lens(writes)))
 
+		// ---- the same wrappers over a dump writer that fails: from its (k+1)-th write on it
+		// reports an error and a zero count; nothing of that may reach the caller or the
+		// connection writer, and it is still offered every accepted piece exactly once
+		{
+			k := r.Intn(4)
+			sink := &c13FailingSink{k: k}
+			inner2 := &c13LimitedWriter{limit: limit}
+			d := newDumper(&DumpOptions{Output: io.Discard, RequestHeaderOutput: sink, RequestBodyOutput: sink, RequestHeader: true, RequestBody: true})
+			var w2 io.Writer
+			switch kind {
+			case 0:
+				w2 = d.WrapRequestHeaderWriter(inner2)
+			case 1:
+				w2 = d.WrapRequestBodyWriter(inner2)
+			default:
+				w2 = d.WrapRequestBodyWriteCloser(inner2)
+			}
+			var res2 []string
+			for _, p := range writes {
+				buf := []byte(p)
+				n, err := w2.Write(buf)
+				for i := range buf {
+					buf[i] = 0xEE
+				}
+				code := 0
+				if err == io.ErrShortWrite {
+					code = 2
+				} else if err != nil {
+					code = 9
+				}
+				res2 = append(res2, fmt.Sprintf("%d:%d", n, code))
+			}
+			ans2 := "-"
+			if len(res2) > 0 {
+				ans2 = strings.Join(res2, ",")
+			}
+			ans2 += " got=" + verifh.Hex(inner2.got.String()) + " seen=" + verifh.HexList(sink.seen)
+			if len(sink.seen) > k {
+				cnt.add(s, "failing-sink-failed")
+			}
+			s.Case(fmt.Sprintf("c13wraps %d %s %d", limit, verifh.HexList(writes), k), ans2, true, "", len(sink.seen) > k,
+				fmt.Sprintf("writer kind=%d limit=%d writes=%v over a dump writer failing after %d writes", kind, limit, c13Lens(writes), k))
+		}
+
 		// ---- response body reader
 		data := verifh.RandBytes(r, verifh.Pick(r, []int{0, 1, 7, 100, 600}), "")
 		ewd := r.Intn(2) == 0
@@ -315,7 +375,7 @@ func TestVerif_C13_wrap(t *testing.T) {
 		s.Case(fmt.Sprintf("c13wrapr %s %d %s", verifh.Hex(data), c13B2i(ewd), verifh.IntList(caps)), rans, rok, "", len(data) > 64,
 			fmt.Sprintf("reader %dB eofWithData=%v dumpers=%d caps=%v", len(data), ewd, nd, caps))
 	}
-	for _, must := range []string{"writer-kind=0", "writer-kind=1", "writer-kind=2", "short-write", "reader-dumpers=0", "reader-dumpers=2"} {
+	for _, must := range []string{"writer-kind=0", "writer-kind=1", "writer-kind=2", "short-write", "reader-dumpers=0", "reader-dumpers=2", "failing-sink-failed"} {
 		if cnt[must] == 0 {
 			t.Errorf("generator never reached bucket %q", must)
 		}
@@ -352,7 +412,7 @@ func TestVerif_C13_chan(t *testing.T) {
 			data := verifh.RandBytes(r, r.Intn(5), "")
 			ws, ds = append(ws, w), append(ds, data)
 			buf := []byte(data)
-			d.DumpTo(buf, &c13LogWriter{w, log, false})
+			d.DumpTo(buf, &c13LogWriter{id: w, log: log})
 			for j := range buf {
 				buf[j] = 0xEE
 			}
@@ -463,7 +523,7 @@ func TestVerif_C13_preset(t *testing.T) {
 				case 7:
 					cl.EnableDumpAllAsync()
 				default:
-					cl.EnableDumpAllTo(&c13LogWriter{p, log, false})
+					cl.EnableDumpAllTo(&c13LogWriter{id: p, log: log})
 				}
 			}
 			d, defOut = cl.Dump, 1000
@@ -487,7 +547,7 @@ func TestVerif_C13_preset(t *testing.T) {
 				case 6:
 					rq.EnableDumpWithoutBody()
 				default:
-					rq.EnableDumpTo(&c13LogWriter{p, log, false})
+					rq.EnableDumpTo(&c13LogWriter{id: p, log: log})
 				}
 			}
 			d, _ = rq.Context().Value(dump.DumperKey).(*dump.Dumper)
@@ -540,12 +600,12 @@ func TestVerif_C13_life(t *testing.T) {
 		for _, op := range ops {
 			switch op {
 			case 0, 1:
-				cl.SetCommonDumpOptions(&DumpOptions{Output: &c13LogWriter{1, sink, false}, RequestHeader: true, Async: op == 1})
+				cl.SetCommonDumpOptions(&DumpOptions{Output: &c13LogWriter{id: 1, log: sink}, RequestHeader: true, Async: op == 1})
 				cl.EnableDumpAll()
 			case 2:
 				if cl.Dump == nil {
 					// keep stdout clean: give the client options with a writer first
-					cl.SetCommonDumpOptions(&DumpOptions{Output: &c13LogWriter{1, sink, false}, RequestHeader: true})
+					cl.SetCommonDumpOptions(&DumpOptions{Output: &c13LogWriter{id: 1, log: sink}, RequestHeader: true})
 				}
 				cl.EnableDumpAllAsync()
 			case 3:
@@ -569,7 +629,7 @@ func TestVerif_C13_life(t *testing.T) {
 			done := make(chan struct{})
 			go func() { // blocks for ever if nobody drains a full queue
 				for i := 0; i < 30; i++ {
-					d.DumpTo([]byte{byte('a' + i%26)}, &c13LogWriter{2, log, false})
+					d.DumpTo([]byte{byte('a' + i%26)}, &c13LogWriter{id: 2, log: log})
 				}
 				d.DumpTo([]byte("!"), c13SignalWriter{done})
 			}()
